@@ -458,7 +458,24 @@ def ack_rule(rep, prog, cfg):
             if "nom::character::streaming::char" in callee_names(t):
                 c = op_const(t["args"][0])
                 chars.append(chr(c["int"]) if c and c.get("int") is not None else "?")
-        rep.check("nom::sequence::separated_pair" in names and "@" in chars and "[" in chars and "]" in chars, rule,
+        ordered = "nom::sequence::separated_pair" in names
+        if not ordered:
+            # written out (`let (i, code) = number(i)?; .. let (i, index) = number(i)?; Ok((i, (code, index)))`): the pair that is
+            # returned holds the first number applied and then the second (the order of the characters is the grammar rule's)
+            g2 = Cfg(b2)
+            fl2 = Flow(b2)
+            nums = [bb for bb, t in b2.calls() if any(n.endswith("parser::number") for n in callee_names(t))]
+            if len(nums) == 2 and (g2.dom(nums[0], nums[1]) or g2.dom(nums[1], nums[0])):
+                first, second = (nums[0], nums[1]) if g2.dom(nums[0], nums[1]) else (nums[1], nums[0])
+                for bb, i, st in b2.stmts():
+                    if st["k"] == "assign" and st["rv"]["k"] == "agg" and st["rv"]["agg"] == "tuple" and len(st["rv"]["ops"]) == 2:
+                        srcs = []
+                        for o in st["rv"]["ops"]:
+                            lv, _ = fl2.sources([op_local(o)] if op_local(o) is not None else [], through_call=identity_through, follow_mut=False)
+                            srcs.append({x[1] for x in lv if x[0] == "call" and x[1] in nums})
+                        if srcs == [{first}, {second}]:
+                            ordered = True
+        rep.check(ordered and "@" in chars and "[" in chars and "]" in chars, rule,
                   cfg + "/[code@index]", b2.loc(b2.span), "code and index are not parsed as `[` number `@` number `]` (chars: %s)" % chars)
     # into_owned_error maps field to field
     bs3 = [x for x in prog.bodies.values() if norm(x.name).endswith("RawError::into_owned_error")]
